@@ -153,6 +153,9 @@ def N():
     return n
 
 
+LAST_ERR = [""]
+
+
 def real_call(fn, *a, **k):
     import warnings
 
@@ -161,7 +164,13 @@ def real_call(fn, *a, **k):
             warnings.simplefilter("ignore")
             return "ok", fn(*a, **k)
     except Exception as e:  # noqa: BLE001 – the real code's behaviour, whatever it is
+        LAST_ERR[0] = str(e)[:200]
         return "err", type(e).__name__
+
+
+def is_thermal_type_error(name, err) -> bool:
+    """the known defect: the complex Kraus list is refused by the Rust field (not: any TypeError, e.g. an unknown keyword)"""
+    return name == "ThermalRelaxationNoise" and err == "TypeError" and ("complex" in LAST_ERR[0] or "kraus" in LAST_ERR[0])
 
 
 def env_eig_complex() -> bool:
@@ -196,7 +205,152 @@ ULP1_DN = math.nextafter(1.0, 0.0)
 TINY = 2.0 ** -60
 PROB_POOL = [0.0, 1.0, ULP1_UP, ULP1_DN, 0.5, 0.25, 0.75, 0.125, 0.3, 0.1, 0.7, 0.9, 1e-18, TINY, 2.0 ** -500, 1.5, -0.5, 2.0, -1e-18,
              -(2.0 ** -1074), -0.0, math.inf, -math.inf, math.nan, 0.9999999999999999, 1 / 3, 2 / 3, 0.6, 0.4, 1.0000000000000004]
+# values just outside [0,1] at the scales a "round-off allowance" would use, and integer-valued out-of-range values
+PROB_POOL += [-1e-9, 1.0 + 1e-9, -1e-8, 1.0 + 1e-8, -1e-7, 1.0 + 1e-7, -1e-12, 1.0 + 1e-12, -1e-300, -1.0, 3.0]
 IN_POOL = [p for p in PROB_POOL if O.is_prob(p)]
+
+# ---------------------------------------------------------------------------
+# argument forms (the documented signatures; every form denotes the same mathematical arguments)
+# ---------------------------------------------------------------------------
+KW_NAMES = {
+    "BitFlipNoise": ["error_prob"], "PhaseFlipNoise": ["error_prob"], "BitPhaseFlipNoise": ["error_prob"], "DepolarizingNoise": ["error_prob"],
+    "ResetNoise": ["p0", "p1"], "PhaseDampingNoise": ["phase_damping_rate"],
+    "AmplitudeDampingNoise": ["amplitude_damping_rate", "excited_state_population"],
+    "PhaseAmplitudeDampingNoise": ["phase_damping_rate", "amplitude_damping_rate", "excited_state_population"],
+    "ThermalRelaxationNoise": ["t1", "t2", "gate_time", "excited_state_population"],
+}
+# qubit filters: descriptors -> the object handed to the factory ("range2", "np02" are a range / a NumPy array)
+# (NumPy arrays are not offered as filters: the list factories of the unchanged tree refuse them (`if qubit_indices and …`), so they are
+#  not part of the documented `Sequence[int]`)
+QI_POOL = [(), [0], (0,), [1], [2, 0], (0, 1, 2), "range2", [1, 1], [5], [2 ** 32 + 1, 0], (2, 1), "range3"]
+TG_POOL = [(), ["X"], ("H", "X"), ["CNOT"], ["Z"], ["X", "X"], ["CNOT", "H", "X"], ("H",)]
+# in-range dyadic / integer-valued in-range / integer-valued out-of-range parameter vectors per factory
+FORM_PARAMS = {
+    "BitFlipNoise": [(0.25,), (1.0,), (0.0,), (2.0,), (-1.0,)],
+    "PhaseFlipNoise": [(0.25,), (1.0,), (0.0,), (2.0,), (-1.0,)],
+    "BitPhaseFlipNoise": [(0.25,), (1.0,), (0.0,), (2.0,), (-1.0,)],
+    "DepolarizingNoise": [(0.75,), (1.0,), (0.0,), (2.0,), (-1.0,)],
+    "PhaseDampingNoise": [(0.25,), (1.0,), (0.0,), (2.0,), (-1.0,)],
+    "ResetNoise": [(0.25, 0.5), (1.0, 0.0), (0.0, 1.0), (0.0, 0.0), (1.0, 1.0), (2.0, 0.0), (0.0, -1.0)],
+    "AmplitudeDampingNoise": [(0.5, 0.25), (1.0, 0.0), (0.0, 1.0), (1.0, 1.0), (2.0, 0.0), (0.0, -1.0)],
+    "PhaseAmplitudeDampingNoise": [(0.25, 0.5, 0.25), (0.0, 1.0, 0.0), (1.0, 0.0, 1.0), (0.0, 0.0, 0.0), (1.0, 1.0, 0.0), (0.0, 0.0, 2.0), (-1.0, 0.0, 0.0)],
+    "ThermalRelaxationNoise": [(50.0, 100.0, 1.0, 0.25), (50.0, 100.0, 1.0, 0.0), (1.0, 2.0, 0.0, 1.0), (1.0, 3.0, 1.0, 0.0), (0.0, 1.0, 1.0, 0.0), (1.0, 1.0, -1.0, 0.0)],
+}
+
+
+def qi_object(d):
+    if d == "range2":
+        return range(2)
+    if d == "range3":
+        return range(1, 3)
+    return d
+
+
+def qi_values(d):
+    return [int(x) for x in qi_object(d)]
+
+
+def form_key(form) -> str:
+    return json.dumps(form, sort_keys=True, default=str) if form else ""
+
+
+def num_forms(ps):
+    out = ["float", "np64"]
+    if all(math.isfinite(p) and p == int(p) and abs(p) < 2 ** 53 for p in ps):
+        out.append("int")
+        if all(p in (0.0, 1.0) for p in ps):
+            out.append("bool")
+    return out
+
+
+def conv_num(p, how):
+    if how == "int":
+        return int(p)
+    if how == "bool":
+        return bool(p)
+    if how == "np64":
+        import numpy as np
+
+        return np.float64(p)
+    return p
+
+
+def entry_module(which):
+    if which == "mod":
+        import quri_parts.circuit.noise.noise_instruction as m
+
+        return m
+    return N()
+
+
+def call_scalar(name, ps, form):
+    """the real factory on the parameter vector `ps` in the argument form `form` (None = positional floats, no filters)"""
+    if not form:
+        return real_call(getattr(N(), name), *ps)
+    try:
+        fn = getattr(entry_module(form.get("entry")), name)
+    except Exception as e:  # noqa: BLE001 – a missing entry point is an output
+        LAST_ERR[0] = str(e)[:200]
+        return "err", type(e).__name__
+    vals = [conv_num(p, form.get("num", "float")) for p in ps]
+    extra = {}
+    if "qi" in form:
+        extra["qubit_indices"] = qi_object(form["qi"])
+    if "tg" in form:
+        extra["target_gates"] = form["tg"]
+    if form.get("kw"):
+        return real_call(fn, **dict(zip(KW_NAMES[name], vals)), **extra)
+    if form.get("posfilters"):
+        return real_call(fn, *vals, extra.get("qubit_indices", ()), extra.get("target_gates", ()))
+    return real_call(fn, *vals, **extra)
+
+
+def scalar_form_cases(ctx: Ctx):
+    """(factory, params, form): every factory in every argument form on fixed parameter vectors, then random combinations"""
+    rng = ctx.rng
+    out = []
+    for name, pvs in FORM_PARAMS.items():
+        base = pvs[0]
+        for pv in pvs:
+            for nf in num_forms(pv):
+                if nf != "float":
+                    out.append((name, pv, {"num": nf}))
+            out.append((name, pv, {"kw": True}))
+        out.append((name, base, {"entry": "mod"}))
+        out.append((name, base, {"num": "np64", "kw": True, "entry": "mod"}))
+        for qi in QI_POOL:
+            out.append((name, base, {"qi": qi}))
+        for tg in TG_POOL:
+            out.append((name, base, {"tg": tg}))
+        out.append((name, base, {"qi": [2, 0], "tg": ("H", "X"), "posfilters": True}))
+        out.append((name, base, {"qi": (1,), "tg": ["CNOT"], "kw": True}))
+        out.append((name, base, {"qi": [0, 1, 2], "tg": ["X", "H", "CNOT"], "posfilters": True}))
+    for _ in range(ctx.n(150, 6000)):
+        name = rng.choice(list(FORM_PARAMS))
+        ar = SCALAR[name][1]
+        r = rng.random()
+        if r < 0.4:
+            pv = rng.choice(FORM_PARAMS[name])
+        elif name == "ThermalRelaxationNoise":
+            t1 = rng.choice([1.0, 50.0, 3.0, math.inf, 0.5])
+            pv = (t1, rng.choice([t1, 2 * t1, t1 / 2, 3 * t1]), rng.choice([0.0, 1.0, 0.25, 10.0]), rng.choice([0.0, 1.0, 0.25, 0.5, 2.0]))
+        elif r < 0.7:
+            pv = tuple(float(rng.choice([0, 1, 0, 1, 2, -1])) for _ in range(ar))
+        else:
+            pv = tuple(rng.choice([0.0, 0.25, 0.5, 0.125, 1.0, 0.75]) if rng.random() < 0.8 else rand_prob(rng) for _ in range(ar))
+        form = {"num": rng.choice(num_forms(pv))}
+        if rng.random() < 0.4:
+            form["kw"] = True
+        if rng.random() < 0.6:
+            form["qi"] = rng.choice(QI_POOL)
+        if rng.random() < 0.6:
+            form["tg"] = rng.choice(TG_POOL)
+        if not form.get("kw") and rng.random() < 0.3:
+            form["posfilters"] = True
+        if rng.random() < 0.3:
+            form["entry"] = "mod"
+        out.append((name, tuple(float(p) for p in pv), form))
+    return [(name, tuple(float(p) for p in pv), form) for name, pv, form in out]
 
 
 def rand_prob(rng):
@@ -281,8 +435,8 @@ def scalar_cases(ctx: Ctx):
     for name, ps in cases:
         if name == "ThermalRelaxationNoise" and any(abs(p) > 8e307 and not math.isinf(p) for p in ps if p == p):
             continue
-        out.append((name, tuple(float(p) for p in ps)))
-    return out
+        out.append((name, tuple(float(p) for p in ps), None))
+    return out + scalar_form_cases(ctx)
 
 
 def dyadic(rng, bits=10):
@@ -402,6 +556,82 @@ def check_simulation(ctx: Ctx, what: str, inp, instr, k: int, textbook=None, key
     return None
 
 
+GATES3 = [("X", [0]), ("H", [1]), ("CNOT", [1, 2]), ("X", [2])]
+
+
+def gate_matrix(gname):
+    import numpy as np
+
+    if gname == "X":
+        return O.X
+    if gname == "H":
+        return np.array([[1, 1], [1, -1]], dtype=complex) / math.sqrt(2.0)
+    return np.array([[1, 0, 0, 0], [0, 0, 0, 1], [0, 0, 1, 0], [0, 1, 0, 0]], dtype=complex)  # CNOT, control = first listed qubit
+
+
+def circuit3():
+    from quri_parts.circuit import QuantumCircuit
+
+    c = QuantumCircuit(3)
+    c.add_X_gate(0)
+    c.add_H_gate(1)
+    c.add_CNOT_gate(1, 2)
+    c.add_X_gate(2)
+    return c
+
+
+def expected3(rho, ks, qi, tg):
+    """documented filter semantics of a single-qubit gate noise: after every gate whose name is in target_gates (empty = any),
+    on each of its qubits that is in qubit_indices (empty = any)"""
+    for gname, qs in GATES3:
+        U = O.embed(3, qs, gate_matrix(gname))
+        rho = U @ rho @ U.conj().T
+        if tg and gname not in tg:
+            continue
+        for q in qs:
+            if qi and q not in qi:
+                continue
+            rho = O.apply_kraus(rho, ks, 3, [q])
+    return rho
+
+
+def simulate3(instrs, rng, rho=None):
+    import numpy as np
+    import qulacs
+
+    from quri_parts.qulacs.circuit.noise import convert_circuit_with_noise_model
+
+    qc = convert_circuit_with_noise_model(circuit3(), N().NoiseModel(list(instrs)))
+    if rho is None:
+        rho = O.random_density(rng, 3)
+    st = qulacs.DensityMatrix(3)
+    st.load(rho)
+    qc.update_quantum_state(st)
+    return rho, np.array(st.get_matrix())
+
+
+def check_simulation3(ctx: Ctx, instr, textbook, qi, tg):
+    """a single-qubit instruction with filters on a 3-qubit circuit: trace one, positive; equal to the textbook channel applied
+    where the filters say (only when no filter entry is repeated: the multiplicity of repeated entries is NoiseModel's business)"""
+    import numpy as np
+
+    try:
+        rho, out = simulate3([instr], ctx.rng)
+    except Exception as e:  # noqa: BLE001
+        ctx.count("simulate3", "raised:" + type(e).__name__)
+        return "raised:" + type(e).__name__ + ": " + str(e)[:120]
+    ctx.count("simulate3", "ok")
+    tr = float(np.trace(out).real)
+    lo = O.min_eig(out)
+    if not (abs(tr - 1) <= 1e-9) or not (lo >= -1e-9) or np.isnan(tr):
+        return f"trace={tr!r} min-eigenvalue={lo!r}"
+    if textbook is not None and len(set(qi)) == len(qi) and len(set(tg)) == len(tg):
+        d = float(np.max(np.abs(expected3(rho, textbook, qi, tg) - out)))
+        if d > 1e-9:
+            return f"differs by {d:.3g} from the textbook channel applied where qubit_indices={qi} target_gates={tg} say"
+    return None
+
+
 def witness_once(ctx: Ctx, key, what, inp, detail=None, sub=None):
     """register a witness once per (key, sub) over the whole run"""
     seen = ctx.__dict__.setdefault("c17_seen", set())
@@ -415,7 +645,7 @@ def real_instr(ctx: Ctx, name, ps):
     """real factory call for harness-internal use on IN-RANGE parameters; a rejection is a property witness, never a crash"""
     st, val = real_call(getattr(N(), name), *ps)
     if st == "err":
-        key = K_THERMAL if (name == "ThermalRelaxationNoise" and val == "TypeError") else f"{name}.rejects-valid"
+        key = K_THERMAL if is_thermal_type_error(name, val) else f"{name}.rejects-valid"
         witness_once(ctx, key, f"{name} raises {val} for parameters inside the documented range",
                      {"factory": name, "params": [repr(float(p)) for p in ps]})
         return None
@@ -438,13 +668,14 @@ def run_scalar(ctx: Ctx, info, flags: str, cases):
     import numpy as np
 
     n = N()
-    reqs = [f"scalar fp53 {flags} gen {name} " + " ".join(xr(p) for p in ps) for name, ps in cases]
+    reqs = [f"scalar fp53 {flags} gen {name} " + " ".join(xr(p) for p in ps) for name, ps, _ in cases]
     resp = ctx.driver(reqs, entry=ENTRY)
     bad_accepts: dict = {}
-    for (name, ps), r in zip(cases, resp):
-        st, val = real_call(getattr(n, name), *ps)
+    for (name, ps, form), r in zip(cases, resp):
+        st, val = call_scalar(name, ps, form)
         mst, mval = parse_resp(r)
         raw_err = val if st == "err" else None
+        thermal_known = st == "err" and is_thermal_type_error(name, val)
         if name == "ThermalRelaxationNoise":
             # after validation the factory runs NumPy numerics (la.eig / la.inv) that the model does not follow:
             # every failure that is not the validation's ValueError is one class
@@ -456,12 +687,16 @@ def run_scalar(ctx: Ctx, info, flags: str, cases):
                 # NaN slipped through the validation in both: what la.eig does with a NaN matrix is not modelled
                 st, val, mst, mval = "err", "AfterValidationError", "err", "AfterValidationError"
         rng_ok = O.in_range(name, ps)
-        canon = (name,) + tuple(xr(p) for p in ps)
+        canon = (name,) + tuple(xr(p) for p in ps) + ((form_key(form),) if form else ())
         ctx.case(canon, nontrivial=True, sample={"factory": name, "params": [repr(p) for p in ps], "real": st if st == "err" else "ok", "model": r[:160]})
         ctx.traces += 1
         ctx.count("factory", name)
         ctx.count("outcome", f"{'in' if rng_ok else 'out'}-range/{raw_err if st == 'err' else 'ok'}")
         inp = {"factory": name, "params": [repr(p) for p in ps]}
+        if form:
+            inp["form"] = form
+            for fk, fv in form.items():
+                ctx.count("form", f"{fk}={fv}" if fk in ("num", "kw", "entry", "posfilters") else fk)
         # --- correspondence
         if st != mst or (st == "err" and val != mval):
             ctx.disagree("scalarFactory", inp, f"{st} {val if st == 'err' else ''}", r[:300])
@@ -475,9 +710,18 @@ def run_scalar(ctx: Ctx, info, flags: str, cases):
         # --- property on the real outcome (independent oracle)
         if st == "err":
             if rng_ok:
-                key = K_THERMAL if (name == "ThermalRelaxationNoise" and raw_err == "TypeError") else f"{name}.rejects-valid"
+                key = K_THERMAL if thermal_known else f"{name}.rejects-valid"
                 witness_once(ctx, key, f"{name} raises {raw_err} for parameters inside the documented range", inp)
             continue
+        # --- the filters are stored as given (the model's instruction is the one for these filters)
+        qi_l = qi_values(form["qi"]) if form and "qi" in form else []
+        tg_l = list(form["tg"]) if form and "tg" in form else []
+        try:
+            got_f = (list(val.qubit_indices), list(val.target_gates))
+        except Exception as e:  # noqa: BLE001
+            got_f = f"unreadable: {type(e).__name__}"
+        if got_f != (qi_l, tg_l):
+            ctx.disagree("scalarFactory.filters", inp, str(got_f), str((qi_l, tg_l)))
         if not rng_ok:
             key = classify_bad_accept(name, ps, info)
             # keep, per (key, factory), the most clearly unphysical accepted input (largest distance from [0,1])
@@ -495,7 +739,13 @@ def run_scalar(ctx: Ctx, info, flags: str, cases):
             d = float(np.max(np.abs(O.superop(val.kraus_operators) - O.superop(O.textbook_kraus(name, ps)))))
             if d > 1e-9:
                 ctx.count("textbook", "differs")  # not a C17 violation: still a physical channel
-        if ctx.rng.random() < (0.5 if ctx.quick() else 0.25) or len(ctx.dist.get("simulate", {})) == 0:
+        if form and ("qi" in form or "tg" in form):
+            if ctx.rng.random() < (0.7 if ctx.quick() else 0.3):
+                bad = check_simulation3(ctx, val, O.textbook_kraus(name, ps), qi_l, tg_l)
+                if bad:
+                    witness_once(ctx, f"{name}.simulator", f"{name} with filters through convert_circuit_with_noise_model + DensityMatrix "
+                                 f"(X(0) H(1) CNOT(1,2) X(2) on 3 qubits): {bad}", inp)
+        elif ctx.rng.random() < (0.5 if ctx.quick() else 0.25) or len(ctx.dist.get("simulate", {})) == 0:
             bad = check_simulation(ctx, name, inp, val, 1, textbook=O.textbook_kraus(name, ps))
             if bad:
                 witness_once(ctx, f"{name}.simulator", f"{name} through convert_circuit_with_noise_model + DensityMatrix: {bad}", inp)
@@ -511,6 +761,57 @@ def run_scalar(ctx: Ctx, info, flags: str, cases):
 # ---------------------------------------------------------------------------
 # K + oracle for the list factories
 # ---------------------------------------------------------------------------
+LIST_SIG = {
+    "pauli": ("PauliNoise", ["pauli_list", "prob_list", "qubit_indices", "target_gates", "eq_tolerance"], 2),
+    "gdepol": ("GeneralDepolarizingNoise", ["error_prob", "qubit_count", "qubit_indices", "target_gates"], 2),
+    "prob": ("ProbabilisticNoise", ["gate_matrices", "prob_list", "qubit_indices", "target_gates", "eq_tolerance"], 2),
+    "kraus": ("KrausNoise", ["kraus_list", "qubit_indices", "target_gates"], 1),
+}
+
+
+def deep_tuple(x):
+    return tuple(deep_tuple(e) for e in x) if isinstance(x, (list, tuple)) else x
+
+
+def deep_int(x):
+    if isinstance(x, (list, tuple)):
+        return type(x)(deep_int(e) for e in x)
+    if isinstance(x, float) and math.isfinite(x) and x == int(x) and abs(x) < 2 ** 53:
+        return int(x)
+    return x
+
+
+def make_list_call(kind, vals, form):
+    """-> (thunk calling the real factory on `vals` in the argument form `form`, the argument objects it passes);
+    forms: tuples for lists, keywords, ints for integer-valued floats, trailing defaults left out, range objects, entry module"""
+    import copy
+
+    fname, names, required = LIST_SIG[kind]
+    objs = []
+    for nm, v in zip(names, vals):
+        o = copy.deepcopy(v)
+        if form.get("int") and nm in ("prob_list", "gate_matrices", "kraus_list", "error_prob"):
+            o = deep_int(o)
+        if form.get("range") and nm == "qubit_indices" and len(o) > 0 and list(o) == list(range(len(o))):
+            o = range(len(o))
+        elif form.get("tuple") and nm != "qubit_count":
+            o = deep_tuple(o)
+        objs.append(o)
+    k = len(objs)
+    if form.get("trim"):
+        while k > required and ((names[k - 1] in ("qubit_indices", "target_gates") and len(vals[k - 1]) == 0)
+                                or (names[k - 1] == "eq_tolerance" and vals[k - 1] == 1.0e-8)):
+            k -= 1
+
+    def call():
+        fn = getattr(entry_module(form.get("entry")), fname)
+        if form.get("kw"):
+            return fn(**dict(zip(names[:k], objs[:k])))
+        return fn(*objs[:k])
+
+    return call, objs
+
+
 def list_valid(kind, meta):
     """independent reading of the documented conditions of the list factories (shape / range side only);
     None = too close to the eq_tolerance boundary to judge without reproducing the float sum"""
@@ -567,34 +868,108 @@ def list_valid(kind, meta):
 def run_lists(ctx: Ctx, info):
     import numpy as np
 
-    n = N()
     rng = ctx.rng
     tol_default = 1.0e-8
     reqs, metas = [], []
 
-    def add(kind, req, call, meta):
+    R = ctx.n(120, 12000)
+    Xm, Im = [[0.0, 1.0], [1.0, 0.0]], [[1.0, 0.0], [0.0, 1.0]]
+    I4 = [[1.0 if i == j else 0.0 for j in range(4)] for i in range(4)]
+    GATE_OF = {1: "X", 2: "CNOT", 3: "TOFFOLI"}
+    fixed_forms = [{}, {"tuple": True}, {"kw": True}, {"int": True}, {"trim": True}, {"tuple": True, "kw": True, "int": True},
+                   {"entry": "mod"}, {"range": True, "trim": True}, {"kw": True, "trim": True, "entry": "mod"}]
+    nfixed = [0]
+
+    def pick_form(fixed):
+        if fixed:
+            nfixed[0] += 1
+            return dict(fixed_forms[nfixed[0] % len(fixed_forms)])
+        f = {}
+        for key, pr in (("tuple", 0.35), ("kw", 0.35), ("int", 0.3), ("trim", 0.4), ("range", 0.3)):
+            if rng.random() < pr:
+                f[key] = True
+        if rng.random() < 0.25:
+            f["entry"] = "mod"
+        return f
+
+    def pick_indices(nq, nidx):
+        if nidx == 0:
+            return []
+        r = rng.random()
+        if nidx == nq and nq > 1:
+            idx = list(range(nq))
+            if r < 0.5:
+                rng.shuffle(idx)
+            elif r < 0.65:
+                idx = [i + 1 for i in idx]
+            return idx
+        return list(range(nidx)) if r < 0.5 else rng.sample(range(4), nidx)
+
+    def pick_tg(nq):
+        r = rng.random()
+        g = GATE_OF.get(nq, "X")
+        return [] if r < 0.6 else [g] if r < 0.8 else ["H"] if r < 0.9 else ["H", g]
+
+    def add(kind, req, vals, meta, fixed=False):
+        form = pick_form(fixed)
+        call, objs = make_list_call(kind, vals, form)
+        meta = dict(meta)
+        meta["form"] = form
+        meta["_objs"], meta["_snap"] = objs, repr(objs)
         reqs.append(req)
         metas.append((kind, call, meta))
 
-    R = ctx.n(120, 12000)
-    Xm, Im = [[0.0, 1.0], [1.0, 0.0]], [[1.0, 0.0], [0.0, 1.0]]
-    for paulis, probs, idx in [([[1]], [0.25], [0]), ([[1], [3]], [0.5, 0.5], [0]), ([[1, 2]], [0.25], [0, 1]), ([[1]], [1.0], []), ([[3]], [0.0], [0, 1])]:
-        add("pauli", f"pauli fp53 {xr(tol_default)} {len(idx)} | {';'.join(','.join(map(str, r_)) for r_ in paulis)} | {' '.join(xr(p) for p in probs)}",
-            (lambda pa=paulis, pr=probs, ix=idx: n.PauliNoise(pa, pr, ix)),
-            {"factory": "PauliNoise", "pauli_list": paulis, "prob_list": [repr(p) for p in probs], "qubit_indices": idx, "eq_tolerance": repr(tol_default),
-             "_probs": probs, "_tol": tol_default, "_nq": len(paulis[0])})
-    for p_, nq, idx in [(0.5, 1, []), (0.5, 1, [0]), (0.75, 2, [0, 1]), (1.0, 1, [0]), (0.0, 2, [0, 1])]:
-        add("gdepol", f"gdepol fp53 {xr(p_)} {nq} {len(idx)}", (lambda p=p_, q=nq, ix=idx: n.GeneralDepolarizingNoise(p, q, ix)),
-            {"factory": "GeneralDepolarizingNoise", "error_prob": repr(p_), "qubit_count": nq, "qubit_indices": idx, "_p": p_, "_nq": nq})
+    def add_pauli(paulis, probs, idx, tg=(), tol=tol_default, fixed=False):
+        add("pauli", f"pauli fp53 {xr(tol)} {len(idx)} | {';'.join(','.join(map(str, r_)) for r_ in paulis)} | {' '.join(xr(p) for p in probs)}",
+            [paulis, probs, idx, list(tg), tol],
+            {"factory": "PauliNoise", "pauli_list": paulis, "prob_list": [repr(p) for p in probs], "qubit_indices": idx, "target_gates": list(tg),
+             "eq_tolerance": repr(tol), "_probs": probs, "_tol": tol, "_nq": len(paulis[0]) if paulis else 0}, fixed)
+
+    def add_gdepol(p_, nq, idx, tg=(), fixed=False):
+        add("gdepol", f"gdepol fp53 {xr(p_)} {nq} {len(idx)}", [p_, nq, idx, list(tg)],
+            {"factory": "GeneralDepolarizingNoise", "error_prob": repr(p_), "qubit_count": nq, "qubit_indices": idx, "target_gates": list(tg),
+             "_p": p_, "_nq": nq}, fixed)
+
+    def add_prob(ms, probs, idx, tg=(), tol=tol_default, fixed=False):
+        add("prob", f"prob fp53 {xr(tol)} {len(idx)} | {enc_mats(ms)} | {' '.join(xr(p) for p in probs)}", [ms, probs, idx, list(tg), tol],
+            {"factory": "ProbabilisticNoise", "gate_matrices": ms, "prob_list": [repr(p) for p in probs], "qubit_indices": idx, "target_gates": list(tg),
+             "eq_tolerance": repr(tol), "_probs": probs, "_tol": tol, "_ms": ms}, fixed)
+
+    def add_kraus(ms, idx, tg=(), fixed=False):
+        add("kraus", f"kraus {len(idx)} | {enc_mats(ms)}", [ms, idx, list(tg)],
+            {"factory": "KrausNoise", "kraus_list": ms, "qubit_indices": idx, "target_gates": list(tg), "_ms": ms}, fixed)
+
+    # --- fixed cases, every run: the witnesses of the Lean defect theorems, every documented rejecting branch, boundary sums
+    for paulis, probs, idx in [([[1]], [0.25], [0]), ([[1], [3]], [0.5, 0.5], [0]), ([[1, 2]], [0.25], [0, 1]), ([[1]], [1.0], []), ([[3]], [0.0], [0, 1]),
+                               ([], [], []), ([[1]], [], []), ([], [0.5], []), ([[1], [2]], [0.5], []), ([[1]], [0.5, 0.25], []),
+                               ([[1]], [1.5], []), ([[1]], [-0.25], []), ([[1], [2]], [0.75, 0.5], []), ([[4]], [0.5], []), ([[2 ** 32 + 1]], [0.5], []),
+                               ([[1, 2], [3]], [0.25, 0.25], []), ([[1, 2]], [0.5], [0]), ([[1, 2]], [0.5], [0, 1, 2]), ([[1, 2]], [0.5], [1, 0]),
+                               ([[1, 2, 3]], [0.5], [2, 0, 1]), ([[1], [2]], [1.0, 2.0 ** -30], [0]), ([[1], [2]], [1.0, 2.0 ** -20], [0]),
+                               ([[0], [1], [2], [3]], [0.25, 0.25, 0.25, 0.25], [0]), ([[1], [1]], [0.5, 0.5], [0])]:
+        add_pauli(paulis, probs, idx, fixed=True)
+    add_pauli([[1], [2]], [0.5, 0.5], [0], tol=0.0, fixed=True)
+    add_pauli([[1], [2]], [0.5, 0.5], [0], tg=["X"], fixed=True)
+    add_pauli([[1, 3]], [0.5], [1, 0], tg=["CNOT", "H"], fixed=True)
+    for p_, nq, idx in [(0.5, 1, []), (0.5, 1, [0]), (0.75, 2, [0, 1]), (1.0, 1, [0]), (0.0, 2, [0, 1]), (0.5, 0, []), (1.5, 1, []), (-0.25, 1, [0]),
+                        (0.5, 2, [0]), (0.5, 2, [0, 1, 2]), (0.5, 2, [1, 0]), (0.25, 3, [2, 0, 1]), (ULP1_UP, 1, [0]), (1.0 + 1e-9, 1, [0]), (-1e-9, 2, [])]:
+        add_gdepol(p_, nq, idx, fixed=True)
+    add_gdepol(0.5, 2, [1, 0], tg=["CNOT"], fixed=True)
     two = [[2.0, 0.0], [0.0, 2.0]]  # the inputs of kraus_unchecked_defect / probabilistic_unchecked_defect
-    for ms, probs, idx in [([two], [1.0], []), ([Xm], [0.25], []), ([Xm], [1.0], [0]), ([Xm, Im], [0.5, 0.5], []), ([Xm], [0.0], [])]:
-        add("prob", f"prob fp53 {xr(tol_default)} {len(idx)} | {enc_mats(ms)} | {' '.join(xr(p) for p in probs)}",
-            (lambda m=ms, pr=probs, ix=idx: n.ProbabilisticNoise(m, pr, ix)),
-            {"factory": "ProbabilisticNoise", "gate_matrices": ms, "prob_list": [repr(p) for p in probs], "qubit_indices": idx,
-             "eq_tolerance": repr(tol_default), "_probs": probs, "_tol": tol_default, "_ms": ms})
-    for ms, idx in [([two], []), ([Im], []), ([Xm], [0]), ([[[0.5, 0.0], [0.0, 0.5]]] * 4, [])]:
-        add("kraus", f"kraus {len(idx)} | {enc_mats(ms)}", (lambda m=ms, ix=idx: n.KrausNoise(m, ix)),
-            {"factory": "KrausNoise", "kraus_list": ms, "qubit_indices": idx, "_ms": ms})
+    for ms, probs, idx in [([two], [1.0], []), ([Xm], [0.25], []), ([Xm], [1.0], [0]), ([Xm, Im], [0.5, 0.5], []), ([Xm], [0.0], []),
+                           ([], [], []), ([Xm], [], []), ([], [0.5], []), ([Xm, Im], [0.5], []), ([Xm], [0.5, 0.25], []), ([Xm], [1.5], []),
+                           ([Xm], [-0.25], []), ([Xm, Im], [0.75, 0.5], []), ([[[1.0]]], [0.5], []), ([[[1.0, 0.0, 0.0], [0.0, 1.0, 0.0], [0.0, 0.0, 1.0]]], [0.5], []),
+                           ([[[1.0, 0.0, 0.0], [0.0, 1.0, 0.0]]], [0.5], []), ([Xm, I4], [0.25, 0.25], []), ([I4, Xm], [0.25, 0.25], []),
+                           ([I4], [0.25], [0]), ([I4], [0.25], [0, 1, 2]), ([I4], [0.25], [1, 0]), ([I4], [0.25], [0, 1]),
+                           ([dy_matrix(rng, 8, "perm")], [0.25], [2, 0, 1]), ([Xm, Im], [1.0, 2.0 ** -30], [0]), ([Xm, Im], [1.0, 2.0 ** -20], [0])]:
+        add_prob(ms, probs, idx, fixed=True)
+    add_prob([Xm, Im], [0.5, 0.5], [0], tol=0.0, fixed=True)
+    add_prob([Xm], [0.25], [0], tg=["X", "H"], fixed=True)
+    for ms, idx in [([two], []), ([Im], []), ([Xm], [0]), ([[[0.5, 0.0], [0.0, 0.5]]] * 4, []), ([], []), ([[[1.0]]], []),
+                    ([[[1.0, 0.0, 0.0], [0.0, 1.0, 0.0], [0.0, 0.0, 1.0]]], []), ([[[1.0, 0.0, 0.0], [0.0, 1.0, 0.0]]], []), ([Xm, I4], []), ([I4, Xm], []),
+                    ([I4], [0]), ([I4], [0, 1, 2]), ([I4], [1, 0]), ([I4], [0, 1]), ([Xm], [0, 1, 2]), ([dy_matrix(rng, 8, "perm")], [1, 2, 0])]:
+        add_kraus(ms, idx, fixed=True)
+    add_kraus([Xm], [0], tg=["X"], fixed=True)
+    add_kraus([I4], [1, 0], tg=["H", "CNOT"], fixed=True)
     # --- PauliNoise
     for i in range(R):
         nq = rng.choice([1, 1, 2, 3])
@@ -603,7 +978,7 @@ def run_lists(ctx: Ctx, info):
         probs = prob_list(rng, k)
         r = rng.random()
         if r < 0.06:
-            paulis[rng.randrange(k)][rng.randrange(nq)] = rng.choice([4, 5, 7])
+            paulis[rng.randrange(k)][rng.randrange(nq)] = rng.choice([4, 5, 7, 2 ** 32, 2 ** 32 + 2])
         elif r < 0.12 and nq > 1:
             paulis[rng.randrange(k)].pop()
         elif r < 0.16:
@@ -615,20 +990,15 @@ def run_lists(ctx: Ctx, info):
         if not exact_partial_sums(probs):
             continue
         tol = tol_default if rng.random() < 0.8 else rng.choice([0.0, 0.5, 2.0 ** -20])
-        nidx = rng.choice([0, 0, nq, 1, 2, 3])
-        idx = list(range(nidx))
-        add("pauli", f"pauli fp53 {xr(tol)} {nidx} | {';'.join(','.join(map(str, r_)) for r_ in paulis)} | {' '.join(xr(p) for p in probs)}",
-            (lambda pa=paulis, pr=probs, ix=idx, t=tol: n.PauliNoise(pa, pr, ix, (), t)),
-            {"factory": "PauliNoise", "pauli_list": paulis, "prob_list": [repr(p) for p in probs], "qubit_indices": idx, "eq_tolerance": repr(tol),
-             "_probs": probs, "_tol": tol, "_nq": nq})
+        nidx = rng.choice([0, 0, nq, nq, 1, 2, 3])
+        add_pauli(paulis, probs, pick_indices(nq, nidx), pick_tg(nq), tol)
     # --- GeneralDepolarizingNoise
     for i in range(R // 2 + 8):
-        p = rng.choice([0.0, 1.0, 0.5, 0.3, 0.75, ULP1_UP, ULP1_DN, -0.25, 1.5, math.nan, 0.1, TINY, 2.0 ** -500]) if rng.random() < 0.6 else rng.random()
+        p = rng.choice([0.0, 1.0, 0.5, 0.3, 0.75, ULP1_UP, ULP1_DN, -0.25, 1.5, math.nan, 0.1, TINY, 2.0 ** -500, -1e-9, 1.0 + 1e-9, 2.0, -1.0]) \
+            if rng.random() < 0.6 else rng.random()
         nq = rng.choice([0, 1, 1, 2, 2, 3])
-        nidx = rng.choice([0, 0, nq, 1, 2])
-        idx = list(range(nidx))
-        add("gdepol", f"gdepol fp53 {xr(p)} {nq} {nidx}", (lambda p=p, q=nq, ix=idx: n.GeneralDepolarizingNoise(p, q, ix)),
-            {"factory": "GeneralDepolarizingNoise", "error_prob": repr(p), "qubit_count": nq, "qubit_indices": idx, "_p": p, "_nq": nq})
+        nidx = rng.choice([0, 0, nq, nq, 1, 2])
+        add_gdepol(p, nq, pick_indices(nq, nidx), pick_tg(nq))
     # --- ProbabilisticNoise
     for i in range(R):
         d = rng.choice([2, 2, 2, 4, 4, 8, 3, 1])
@@ -645,21 +1015,14 @@ def run_lists(ctx: Ctx, info):
             ms = ms[:-1]
         elif r < 0.15:
             ms, probs = [], []
+        elif r < 0.17:
+            probs = []
         if not exact_partial_sums(probs):
             continue
         tol = tol_default if rng.random() < 0.8 else rng.choice([0.0, 0.5])
         nq = int(math.log2(d)) if d in (2, 4, 8) else 1
-        nidx = rng.choice([0, 0, nq, 1, 2])
-        idx = list(range(nidx))
-        ragged = any(len(row) != len(m) for m in ms for row in m)
-        if ragged or not ms:
-            encm = enc_mats(ms) if ms else ""
-        else:
-            encm = enc_mats(ms)
-        add("prob", f"prob fp53 {xr(tol)} {nidx} | {encm} | {' '.join(xr(p) for p in probs)}",
-            (lambda m=ms, pr=probs, ix=idx, t=tol: n.ProbabilisticNoise(m, pr, ix, (), t)),
-            {"factory": "ProbabilisticNoise", "gate_matrices": ms, "prob_list": [repr(p) for p in probs], "qubit_indices": idx,
-             "eq_tolerance": repr(tol), "_probs": probs, "_tol": tol, "_ms": ms})
+        nidx = rng.choice([0, 0, nq, nq, 1, 2])
+        add_prob(ms, probs, pick_indices(nq, nidx), pick_tg(nq), tol)
     # --- KrausNoise
     for i in range(R // 2 + 8):
         d = rng.choice([2, 2, 4, 8, 3, 1])
@@ -671,13 +1034,11 @@ def run_lists(ctx: Ctx, info):
             ms = [dy_matrix(rng, d, rng.choice(["perm", "rand", "ident"])) for _ in range(rng.randint(1, 3))]
         if r > 0.9 and ms and len(ms[0]) > 1:
             ms[0] = ms[0][:-1]
-        if r > 0.97:
+        if r > 0.95:
             ms = []
         nq = int(math.log2(d)) if d in (2, 4, 8) else 1
-        nidx = rng.choice([0, 0, nq, 1, 2])
-        idx = list(range(nidx))
-        add("kraus", f"kraus {nidx} | {enc_mats(ms)}", (lambda m=ms, ix=idx: n.KrausNoise(m, ix)),
-            {"factory": "KrausNoise", "kraus_list": ms, "qubit_indices": idx, "_ms": ms})
+        nidx = rng.choice([0, 0, nq, nq, 1, 2])
+        add_kraus(ms, pick_indices(nq, nidx), pick_tg(nq))
     resp = ctx.driver(reqs, entry=ENTRY)
     sims = 0
     for (kind, call, meta), r in zip(metas, resp):
@@ -694,11 +1055,34 @@ def run_lists(ctx: Ctx, info):
         if st != mst or (st == "err" and val != mval):
             ctx.disagree(kind, pub, f"{st} {val if st == 'err' else ''}", r[:300])
             mval = None
+        for fk in meta.get("form", {}):
+            ctx.count("list-form", fk)
+        # --- history: the same argument objects a second time give the same outcome, and the call leaves them as they were
+        st2, val2 = real_call(call)
+        same2 = (st2 == st) and ((val2 == val) if st == "err" else (canon_real(val2) == canon_real(val)
+                                                                    and list(val2.qubit_indices) == list(val.qubit_indices)
+                                                                    and list(val2.target_gates) == list(val.target_gates)))
+        untouched = repr(meta["_objs"]) == meta["_snap"]
+        if not same2 or not untouched:
+            hist = dict(pub, history="the factory is called twice with the same argument objects")
+            if st == "ok" and st2 == "err" and list_valid(kind, meta) is True:
+                witness_once(ctx, f"{meta['factory']}.rejects-valid", f"valid arguments are rejected ({val2}) when the same argument objects are "
+                             f"passed a second time (after the first call they read {repr(meta['_objs'])[:200]})", hist)
+            else:
+                ctx.disagree(kind + ".history", hist, f"second call: {st2} {val2 if st2 == 'err' else ''}; arguments after the calls "
+                             f"{repr(meta['_objs'])[:200]}", f"first call: {st}; arguments before {meta['_snap'][:200]}")
         if st == "err":
             # valid ⇒ accepted (independent reading of the documented conditions)
             if list_valid(kind, meta) is True:
                 witness_once(ctx, f"{meta['factory']}.rejects-valid", f"valid arguments rejected ({val})", pub)
             continue
+        # --- the filters are stored as given
+        try:
+            got_f = (list(val.qubit_indices), list(val.target_gates))
+        except Exception as e:  # noqa: BLE001
+            got_f = f"unreadable: {type(e).__name__}"
+        if got_f != (list(meta["qubit_indices"]), list(meta["target_gates"])):
+            ctx.disagree(kind + ".filters", pub, str(got_f), str((meta["qubit_indices"], meta["target_gates"])))
         if list_valid(kind, meta) is False:
             bad_nan = any(isinstance(p, float) and math.isnan(p) for p in meta.get("_probs", [])) or \
                 (kind == "gdepol" and math.isnan(meta["_p"]))
@@ -753,40 +1137,148 @@ def run_lists(ctx: Ctx, info):
 
 
 def run_measurement(ctx: Ctx):
-    """MeasurementNoise wraps single-qubit instructions: always constructible; physical iff its components are"""
+    """MeasurementNoise (and the gate- / depth-interval wrappers exported next to it) wrap single-qubit instructions: always
+    constructible from physical components, and physical through the simulator (2- and 3-qubit circuits, every index form)"""
     import numpy as np
 
     n = N()
     rng = ctx.rng
-    for _ in range(ctx.n(8, 80)):
-        subs = []
-        for _ in range(rng.randint(1, 3)):
-            nm = rng.choice(["BitFlipNoise", "PhaseFlipNoise", "DepolarizingNoise", "PhaseDampingNoise", "AmplitudeDampingNoise", "ResetNoise"])
-            ar = SCALAR[nm][1]
-            ps = [rng.choice([0.0, 0.25, 0.5, 1.0, 0.3]) for _ in range(ar)]
-            if nm == "ResetNoise":
-                ps = [0.25, rng.choice([0.0, 0.5, 0.75])]
-            ins = real_instr(ctx, nm, ps)
-            if ins is not None:
-                subs.append((nm, ps, ins))
+    Xm, Im = [[0.0, 1.0], [1.0, 0.0]], [[1.0, 0.0], [0.0, 1.0]]
+    half = [[0.5, 0.0], [0.0, 0.5]]
+
+    def component():
+        nm = rng.choice(["BitFlipNoise", "PhaseFlipNoise", "BitPhaseFlipNoise", "DepolarizingNoise", "PhaseDampingNoise", "AmplitudeDampingNoise",
+                         "ResetNoise", "PhaseAmplitudeDampingNoise", "KrausNoise", "ProbabilisticNoise"])
+        if nm == "KrausNoise":
+            ps = [rng.choice([[Xm], [Im], [half] * 4])]
+        elif nm == "ProbabilisticNoise":
+            ps = [[Xm], [rng.choice([0.0, 0.25, 1.0])]]
+        elif nm == "ResetNoise":
+            ps = [0.25, rng.choice([0.0, 0.5, 0.75])]
+        elif nm == "PhaseAmplitudeDampingNoise":
+            ps = [0.25, rng.choice([0.0, 0.5, 0.75]), rng.choice([0.0, 0.5, 1.0])]
+        else:
+            ps = [rng.choice([0.0, 0.25, 0.5, 1.0, 0.3]) for _ in range(SCALAR[nm][1])]
+        if nm in SCALAR:
+            return nm, ps, real_instr(ctx, nm, ps)
+        st, ins = real_call(getattr(n, nm), *ps)
+        if st == "err":
+            witness_once(ctx, f"{nm}.rejects-valid", f"{nm} raises {ins} for valid arguments", {"factory": nm, "args": repr(ps)})
+            return nm, ps, None
+        return nm, ps, ins
+
+    for it_ in range(ctx.n(24, 240)):
+        subs = [c for c in (component() for _ in range(rng.randint(1, 3))) if c[2] is not None]
         if not subs:
             continue
-        idx = rng.choice([[], [0], [1], [0, 1]])
-        st, m = real_call(n.MeasurementNoise, [s[2] for s in subs], idx)
-        inp = {"factory": "MeasurementNoise", "noises": [(a, [repr(x) for x in b]) for a, b, _ in subs], "qubit_indices": idx}
-        ctx.case(("measurement", json.dumps(inp, sort_keys=True)), sample=None)
-        ctx.count("factory", "MeasurementNoise")
+        wrapper = "MeasurementNoise" if it_ % 3 != 2 else rng.choice(["GateIntervalNoise", "DepthIntervalNoise"])
+        if wrapper == "MeasurementNoise":
+            idx_d = rng.choice([None, [], [0], [1], [0, 1], (1, 0), "range2", [1, 1], (2,), [0, 1, 2]])
+            args = [[s_[2] for s_ in subs]] + ([] if idx_d is None else [qi_object(idx_d)])
+            if rng.random() < 0.3:
+                args[0] = tuple(args[0])
+        else:
+            idx_d = rng.choice([1, 2, 3, 5])
+            args = [[s_[2] for s_ in subs], idx_d]
+        st, m = real_call(getattr(n, wrapper), *args)
+        inp = {"factory": wrapper, "noises": [(a_, repr(b_)) for a_, b_, _ in subs], ("qubit_indices" if wrapper == "MeasurementNoise" else "interval"): str(idx_d)}
+        ctx.case((wrapper, json.dumps(inp, sort_keys=True)), sample=None)
+        ctx.count("factory", wrapper)
         if st == "err":
-            witness_once(ctx, "MeasurementNoise.rejects-valid", f"raises {m}", inp)
+            witness_once(ctx, f"{wrapper}.rejects-valid", f"raises {m}", inp)
             continue
         try:
-            rho, out, U = simulate([], 1, rng, measurement=m)
+            if rng.random() < 0.5:
+                rho, out, U = simulate([], 1, rng, measurement=m)
+            else:
+                rho, out = simulate3([m], rng)
         except Exception as e:  # noqa: BLE001
-            witness_once(ctx, "MeasurementNoise.simulator", f"simulation raises {type(e).__name__}: {str(e)[:100]}", inp)
+            witness_once(ctx, f"{wrapper}.simulator", f"simulation raises {type(e).__name__}: {str(e)[:100]}", inp)
             continue
         tr, lo = float(np.trace(out).real), O.min_eig(out)
         if not abs(tr - 1) <= 1e-9 or not lo >= -1e-9:
-            witness_once(ctx, "MeasurementNoise.simulator", f"trace={tr!r} min-eigenvalue={lo!r}", inp)
+            witness_once(ctx, f"{wrapper}.simulator", f"trace={tr!r} min-eigenvalue={lo!r}", inp)
+
+
+def run_invalid_unencodable(ctx: Ctx):
+    """arguments outside the documented range that the driver's line protocol cannot express (negative integers):
+    the property only asks that they are rejected"""
+    n = N()
+    for what, call, inp in [
+        ("PauliNoise", lambda: n.PauliNoise([[-1]], [0.5]), {"factory": "PauliNoise", "pauli_list": [[-1]], "prob_list": ["0.5"]}),
+        ("PauliNoise", lambda: n.PauliNoise([[1, -3]], [0.5], [0, 1]), {"factory": "PauliNoise", "pauli_list": [[1, -3]], "prob_list": ["0.5"], "qubit_indices": [0, 1]}),
+        ("PauliNoise", lambda: n.PauliNoise(((0,), (-2 ** 32 + 1,)), (0.5, 0.25)), {"factory": "PauliNoise", "pauli_list": [[0], [-2 ** 32 + 1]], "prob_list": ["0.5", "0.25"]}),
+        ("GeneralDepolarizingNoise", lambda: n.GeneralDepolarizingNoise(0.5, -1), {"factory": "GeneralDepolarizingNoise", "error_prob": "0.5", "qubit_count": -1}),
+        ("GeneralDepolarizingNoise", lambda: n.GeneralDepolarizingNoise(error_prob=0.5, qubit_count=-2, qubit_indices=[0, 1]),
+         {"factory": "GeneralDepolarizingNoise", "error_prob": "0.5", "qubit_count": -2, "qubit_indices": [0, 1]}),
+    ]:
+        st, val = real_call(call)
+        ctx.case(("invalid", json.dumps(inp, sort_keys=True)), sample=None)
+        ctx.count("outcome", f"{what}/unencodable-invalid/{val if st == 'err' else 'ok'}")
+        if st == "ok":
+            witness_once(ctx, f"{what}.accepts-invalid", "arguments outside the documented range are accepted", inp, sub=what)
+
+
+def run_entry_points(ctx: Ctx):
+    """the other public routes into the density-matrix simulator with a noise model (estimator, exact-probability sampler) and the
+    second import path of the converter: trace one / probabilities non-negative summing to the shot count, and the same state as
+    the converter route (input |000>)"""
+    import numpy as np
+
+    n = N()
+    rng = ctx.rng
+    try:
+        from quri_parts.core.operator import PAULI_IDENTITY, Operator, pauli_label
+        from quri_parts.core.state import quantum_state
+        from quri_parts.qulacs.estimator import create_qulacs_density_matrix_estimator
+        from quri_parts.qulacs.sampler import create_qulacs_density_matrix_ideal_sampler
+        import quri_parts.qulacs.circuit.noise as qn
+        import quri_parts.rust.qulacs as rq
+    except Exception as e:  # noqa: BLE001
+        ctx.notes.append(f"estimator / sampler entry points not importable ({type(e).__name__}: {str(e)[:80]}): not exercised")
+        return
+    if getattr(qn, "convert_circuit_with_noise_model", None) is not getattr(rq, "convert_circuit_with_noise_model", None):
+        ctx.disagree("converter-entry", "quri_parts.qulacs.circuit.noise.convert_circuit_with_noise_model", "is not the Rust converter",
+                     "re-export of quri_parts.rust.qulacs.convert_circuit_with_noise_model")
+    rho0 = np.zeros((8, 8), dtype=complex)
+    rho0[0, 0] = 1.0
+    pool = [(nm, pv[0]) for nm, pv in FORM_PARAMS.items() if nm != "ThermalRelaxationNoise"]
+    for nm, ps in (pool if not ctx.quick() else rng.sample(pool, 5)):
+        qi = rng.choice([(), [0], [2, 1], (1,)])
+        tg = rng.choice([(), ["X"], ["CNOT", "H"]])
+        st, ins = call_scalar(nm, ps, {"qi": qi, "tg": tg})
+        inp = {"factory": nm, "params": [repr(p) for p in ps], "form": {"qi": qi, "tg": tg}}
+        if st == "err":
+            witness_once(ctx, f"{nm}.rejects-valid", f"{nm} raises {ins} for parameters inside the documented range", inp)
+            continue
+        ctx.case(("entry", nm, str(qi), str(tg)), sample=None)
+        ks = O.textbook_kraus(nm, ps)
+        exp = expected3(rho0, ks, list(qi), list(tg))
+        try:
+            model = n.NoiseModel([ins])
+            est = create_qulacs_density_matrix_estimator(model)
+            state = quantum_state(3, circuit=circuit3())
+            one = complex(est(Operator({PAULI_IDENTITY: 1.0}), state).value)
+            zs = [complex(est(Operator({pauli_label(f"Z{q}"): 1.0}), state).value) for q in range(3)]
+            counts = create_qulacs_density_matrix_ideal_sampler(model)(circuit3(), 1024)
+        except Exception as e:  # noqa: BLE001
+            witness_once(ctx, f"{nm}.simulator", f"density-matrix estimator / sampler with this noise raises {type(e).__name__}: {str(e)[:100]}", inp)
+            continue
+        ctx.count("simulate-entry", "ok")
+        zexp = [float(np.trace(O.embed(3, [q], O.Z) @ exp).real) for q in range(3)]
+        pexp = [float(exp[i, i].real) * 1024 for i in range(8)]
+        cs = [float(counts.get(i, 0.0)) for i in range(8)]
+        bad = None
+        if abs(one - 1) > 1e-9:
+            bad = f"estimator: <1> = {one!r}"
+        elif max(abs(a_ - b_) for a_, b_ in zip(zs, zexp)) > 1e-9:
+            bad = f"estimator: <Z_q> = {zs} but the textbook channel gives {zexp}"
+        elif min(cs) < -1e-9 or abs(sum(cs) - 1024) > 1e-6:
+            bad = f"exact sampler: probabilities*1024 = {cs}"
+        elif max(abs(a_ - b_) for a_, b_ in zip(cs, pexp)) > 1e-6:
+            bad = f"exact sampler: {cs} but the textbook channel gives {pexp}"
+        if bad:
+            witness_once(ctx, f"{nm}.simulator", f"{nm} through the density-matrix estimator / sampler (X(0) H(1) CNOT(1,2) X(2) on |000>): {bad}", inp)
 
 
 # ---------------------------------------------------------------------------
@@ -898,7 +1390,10 @@ def run(ctx: Ctx, replay=None) -> int:
     ctx.rule = ("cases = (factory, exact parameter values as rationals / ±inf / nan, filters); real factory outcome (exception class or every "
                 "stored field; Kraus entries through exact squares) vs the Lean model evaluated with IEEE rounding; distinct = distinct "
                 "canonical (factory, arguments); every accepted real instruction is additionally judged by the independent oracle "
-                "(range, Σ K†K, weights, trace / positivity through the real Qulacs conversion)")
+                "(range, Σ K†K, weights, trace / positivity through the real Qulacs conversion); every factory is also called in the other "
+                "argument forms of its documented signature (ints / bools / numpy.float64, tuples / ranges, keywords, explicit or omitted "
+                "optional arguments, both import paths), with qubit / gate filters (stored as given; simulated on a 3-qubit circuit against the "
+                "textbook channel applied where the filters say), and twice on the same argument objects (same outcome, arguments untouched)")
     ctx.trusted = TRUSTED
     ctx.assumptions = [
         "parameters are IEEE doubles in the normal range (no overflow / subnormal arithmetic), ±inf or NaN",
@@ -941,6 +1436,8 @@ def run(ctx: Ctx, replay=None) -> int:
                 run_scalar(ctx, info, flags, scalar_cases(ctx))
                 run_lists(ctx, info)
                 run_measurement(ctx)
+                run_invalid_unencodable(ctx)
+                run_entry_points(ctx)
                 if ctx.disagreements and rounds == 1:
                     rounds = 3  # a disagreement triggers a larger search
                     run_scalar(ctx, info, flags, scalar_cases(ctx))
@@ -974,13 +1471,13 @@ def oracle_only(ctx: Ctx, info):
     import numpy as np
 
     n = N()
-    for name, ps in scalar_cases(ctx):
-        st, val = real_call(getattr(n, name), *ps)
+    for name, ps, form in scalar_cases(ctx):
+        st, val = call_scalar(name, ps, form)
         rng_ok = O.in_range(name, ps)
-        inp = {"factory": name, "params": [repr(p) for p in ps]}
+        inp = {"factory": name, "params": [repr(p) for p in ps], **({"form": form} if form else {})}
         ctx.evaluations += 1
         if st == "err" and rng_ok:
-            ctx.witness(K_THERMAL if (name == "ThermalRelaxationNoise" and val == "TypeError") else f"{name}.rejects-valid", f"raises {val}", inp)
+            ctx.witness(K_THERMAL if is_thermal_type_error(name, val) else f"{name}.rejects-valid", f"raises {val}", inp)
         elif st == "ok" and not rng_ok:
             ctx.witness(classify_bad_accept(name, ps, info), "accepts parameters outside the documented range", inp)
         elif st == "ok" and val.kraus_operators and not O.kraus_residual(val.kraus_operators) <= 1e-12:
